@@ -2,6 +2,9 @@ import PydlVerif.Model.JsonUtil
 import PydlVerif.Model.Interp
 import PydlVerif.Model.BSpline
 import PydlVerif.Model.Combine
+import PydlVerif.Model.CombineFit
+import PydlVerif.Driver.C08
+import PydlVerif.Driver.C09
 open Lean
 namespace PydlVerif.Driver.C11
 open PydlVerif PydlVerif.Interp PydlVerif.BSpline PydlVerif.Combine
@@ -75,6 +78,17 @@ def fitOf (recs : Array Rec) (_k : Nat) (bkspace : Float) (x y : List Float)
             value := fun xs => r.bs.value xs (argsortIns xs)
             bmask := r.bmask }
 
+/-- `ndarray.var()`: mean, then the mean of the squared deviations (numpy adds pairwise: equal to rounding) -/
+def varF (l : List Float) : Float :=
+  let n := Float.ofNat l.length
+  let m := l.foldl (· + ·) 0 / n
+  l.foldl (fun s v => s + (v - m) * (v - m)) 0 / n
+
+/-- the self-contained fit: Model/CombineFit.lean `fitFull` with the Float kernels of Driver/C09 (textbook banded
+Cholesky for LAPACK), float32 rounding of Driver/C08 and a stable insertion argsort for `ndarray.argsort()` -/
+def fitSelf : Nat → Float → List Float → List Float → Option (List Float) → Combine.R (Fit Float) :=
+  fitFull C09.kernelsF C08.floatCodec.r32 varF argsortIns
+
 def isSortingPerm (keys : List Float) (perm : List Nat) : Bool :=
   let n := keys.length
   perm.length == n && (List.range n).all (fun i => perm.contains i) &&
@@ -101,8 +115,20 @@ def handle (j : Json) : Except String Json := do
       | some e => e.2
       | none => 0.0 / 0.0
     let argsort : List Float → List Nat := fun keys => if isSortingPerm keys perm then perm else []
+    let self := (← J.fOpt J.str j "mode") == some "self"
     pure (resJ (fun (r : List Float × List Float) => Json.arr #[ofFloats r.1, ofFloats r.2])
-      (combine1fiber (fitOf recs) argsort medOdd meanF erf classifyF inp))
+      (combine1fiber (if self then fitSelf else fitOf recs) argsort medOdd meanF erf classifyF inp))
+  | "iterfit" =>
+    -- one call of iterfit as combine1fiber makes it (nord=3, requiren=1, bkspace given), self-contained
+    let x ← floats j "x"
+    let y ← floats j "y"
+    let iv ← J.fOpt (J.list J.float) j "iv"
+    let bkspace ← J.fFloat j "bkspace"
+    pure (resJ (fun (o : RqOut Float) => Json.mkObj [
+        ("bk", ofFloats o.sset.breakpoints.toList), ("mask", J.ofList Json.bool o.sset.mask.toList),
+        ("coeff", ofFloats (if o.cz then [0.0] else o.sset.coeff.toList)), ("cz", Json.bool o.cz),
+        ("bmask", J.ofList Json.bool o.outmask)])
+      (iterfitRq C09.kernelsF C08.floatCodec.r32 varF (c1fParams bkspace) (some 1) x y iv (argsortIns x)))
   | "groups" =>
     -- the grouping alone: sizes of the groups for given sorted wavelengths
     let x ← floats j "x"
@@ -114,6 +140,17 @@ def handle (j : Json) : Except String Json := do
     let row ← floats j "row"
     let s ← J.fFloat j "s"
     pure (Json.arr #[ofFloats (shiftRow l s), ofFloats (pickRow l row)])
+  | "preprocess" =>
+    -- the arguments of every combine1fiber call of preprocess_spectra (Model/CombineFit.lean `preprocessInput`)
+    let l ← floats j "loglam"
+    let ls ← floats j "logshift"
+    let fl ← J.list (J.list J.float) (← J.fld j "flux")
+    let iv ← J.list (J.list J.float) (← J.fld j "ivar")
+    let newx ← floats j "newx"
+    pure (J.ofList (fun (k : Nat) =>
+      let inp := preprocessInput l ls fl iv newx (method (j.getObjValAs? String "method" |>.toOption.getD "traditional")) k
+      Json.arr #[ofFloats inp.x, ofFloats inp.flux, ofFloats (inp.ivar.getD []), ofFloats (inp.binsz.toList),
+                 J.ofList J.ofNat inp.xshape, ofFloats inp.newx]) (List.range fl.length))
   | "grow" =>
     let a ← floats j "a"
     pure (ofFloats (growBad a))
